@@ -27,6 +27,143 @@ pub fn payload(id: u64) -> P {
 pub fn check_payload(p: &P) -> Option<u64> {
     if *p == payload(p[0]) { Some(p[0]) } else { None }
 }
+/// slice payloads: the length (1..=6 elements) is a function of the id, every element is checked
+pub fn slice_len(id: u64) -> usize {
+    1 + (id % 6) as usize
+}
+pub fn slice_elem(id: u64, i: usize) -> u64 {
+    if i == 0 { id } else { id.wrapping_mul(0x9E37_79B9).wrapping_add(i as u64 * 0x0101_0101) }
+}
+pub fn check_slice(p: &[u64]) -> Option<u64> {
+    let id = *p.first()?;
+    if p.len() == slice_len(id) && p.iter().enumerate().all(|(i, v)| *v == slice_elem(id, i)) { Some(id) } else { None }
+}
+
+type Factory<S, T> = iceoryx2::service::port_factory::publish_subscribe::PortFactory<S, T, ()>;
+
+/// The payload flavour of a history: fixed-size `[u64; 4]` or slices `[u64]` of 1..=6 elements
+/// (statically sized data segment: initial_max_slice_len 6, so the chunk accounting is the same).
+pub trait Kind: 'static {
+    type T: ?Sized + core::fmt::Debug + IceoryxSend + 'static;
+    const NAME: &'static str;
+    fn service<S: Service>(node: &Node<S>, name: &ServiceName, cfg: &Cfg) -> Result<Factory<S, Self::T>, String>;
+    fn publisher<S: Service>(svc: &Factory<S, Self::T>, loans: Option<usize>, fail_on_full: bool) -> Result<Publisher<S, Self::T, ()>, iceoryx2::port::publisher::PublisherCreateError>;
+    fn subscriber<S: Service>(svc: &Factory<S, Self::T>, buf_hreq: Option<(usize, usize)>) -> Result<Subscriber<S, Self::T, ()>, iceoryx2::port::subscriber::SubscriberCreateError>;
+    fn send_copy<S: Service>(p: &Publisher<S, Self::T, ()>, id: u64) -> Result<usize, SendError>;
+    fn loan<S: Service>(p: &Publisher<S, Self::T, ()>, id: u64) -> Result<SampleMut<S, Self::T, ()>, LoanError>;
+    fn receive<S: Service>(s: &Subscriber<S, Self::T, ()>) -> Result<Option<Sample<S, Self::T, ()>>, ReceiveError>;
+    fn has_samples<S: Service>(s: &Subscriber<S, Self::T, ()>) -> Result<bool, iceoryx2::port::update_connections::ConnectionFailure>;
+    fn update<S: Service>(p: &Publisher<S, Self::T, ()>) -> Result<(), iceoryx2::port::update_connections::ConnectionFailure>;
+    fn sp<S: Service>(s: &Sample<S, Self::T, ()>) -> &Self::T;
+    fn lp<S: Service>(l: &SampleMut<S, Self::T, ()>) -> &Self::T;
+    fn check(p: &Self::T) -> Option<u64>;
+}
+
+macro_rules! svc_settings {
+    ($b:expr, $cfg:expr) => {
+        $b.subscriber_max_buffer_size($cfg.buf_max).history_size($cfg.hist).subscriber_max_borrowed_samples($cfg.borrow).enable_safe_overflow($cfg.overflow).max_publishers($cfg.max_pubs).max_subscribers($cfg.max_subs)
+    };
+}
+
+pub struct Fixed;
+impl Kind for Fixed {
+    type T = P;
+    const NAME: &'static str = "fixed";
+    fn service<S: Service>(node: &Node<S>, name: &ServiceName, cfg: &Cfg) -> Result<Factory<S, P>, String> {
+        svc_settings!(node.service_builder(name).publish_subscribe::<P>(), cfg).create().map_err(|e| format!("{:?}", e))
+    }
+    fn publisher<S: Service>(svc: &Factory<S, P>, loans: Option<usize>, fail_on_full: bool) -> Result<Publisher<S, P, ()>, iceoryx2::port::publisher::PublisherCreateError> {
+        let pb = svc.publisher_builder();
+        let pb = match loans {
+            Some(l) => pb.backpressure_strategy(BackpressureStrategy::DiscardData).max_loaned_samples(l),
+            None => pb,
+        };
+        let pb = if fail_on_full { pb.set_backpressure_handler(|_| iceoryx2::port::BackpressureAction::DiscardDataAndFail) } else { pb };
+        pb.create()
+    }
+    fn subscriber<S: Service>(svc: &Factory<S, P>, bh: Option<(usize, usize)>) -> Result<Subscriber<S, P, ()>, iceoryx2::port::subscriber::SubscriberCreateError> {
+        match bh {
+            Some((buf, hreq)) => svc.subscriber_builder().buffer_size(buf).history_request(hreq).create(),
+            None => svc.subscriber_builder().create(),
+        }
+    }
+    fn send_copy<S: Service>(p: &Publisher<S, P, ()>, id: u64) -> Result<usize, SendError> {
+        p.send_copy(payload(id))
+    }
+    fn loan<S: Service>(p: &Publisher<S, P, ()>, id: u64) -> Result<SampleMut<S, P, ()>, LoanError> {
+        p.loan_uninit().map(|l| l.write_payload(payload(id)))
+    }
+    fn receive<S: Service>(s: &Subscriber<S, P, ()>) -> Result<Option<Sample<S, P, ()>>, ReceiveError> {
+        s.receive()
+    }
+    fn has_samples<S: Service>(s: &Subscriber<S, P, ()>) -> Result<bool, iceoryx2::port::update_connections::ConnectionFailure> {
+        s.has_samples()
+    }
+    fn update<S: Service>(p: &Publisher<S, P, ()>) -> Result<(), iceoryx2::port::update_connections::ConnectionFailure> {
+        p.update_connections()
+    }
+    fn sp<S: Service>(s: &Sample<S, P, ()>) -> &P {
+        s.payload()
+    }
+    fn lp<S: Service>(l: &SampleMut<S, P, ()>) -> &P {
+        l.payload()
+    }
+    fn check(p: &P) -> Option<u64> {
+        check_payload(p)
+    }
+}
+
+pub struct Slices;
+impl Kind for Slices {
+    type T = [u64];
+    const NAME: &'static str = "slice";
+    fn service<S: Service>(node: &Node<S>, name: &ServiceName, cfg: &Cfg) -> Result<Factory<S, [u64]>, String> {
+        svc_settings!(node.service_builder(name).publish_subscribe::<[u64]>(), cfg).create().map_err(|e| format!("{:?}", e))
+    }
+    fn publisher<S: Service>(svc: &Factory<S, [u64]>, loans: Option<usize>, fail_on_full: bool) -> Result<Publisher<S, [u64], ()>, iceoryx2::port::publisher::PublisherCreateError> {
+        let pb = svc.publisher_builder().initial_max_slice_len(6).allocation_strategy(AllocationStrategy::Static);
+        let pb = match loans {
+            Some(l) => pb.backpressure_strategy(BackpressureStrategy::DiscardData).max_loaned_samples(l),
+            None => pb,
+        };
+        let pb = if fail_on_full { pb.set_backpressure_handler(|_| iceoryx2::port::BackpressureAction::DiscardDataAndFail) } else { pb };
+        pb.create()
+    }
+    fn subscriber<S: Service>(svc: &Factory<S, [u64]>, bh: Option<(usize, usize)>) -> Result<Subscriber<S, [u64], ()>, iceoryx2::port::subscriber::SubscriberCreateError> {
+        match bh {
+            Some((buf, hreq)) => svc.subscriber_builder().buffer_size(buf).history_request(hreq).create(),
+            None => svc.subscriber_builder().create(),
+        }
+    }
+    fn send_copy<S: Service>(p: &Publisher<S, [u64], ()>, id: u64) -> Result<usize, SendError> {
+        // the copy API of slices = loan + write + send; a failing loan surfaces as SendError::LoanError
+        match p.loan_slice_uninit(slice_len(id)) {
+            Ok(l) => l.write_from_fn(|i| slice_elem(id, i)).send(),
+            Err(e) => Err(SendError::LoanError(e)),
+        }
+    }
+    fn loan<S: Service>(p: &Publisher<S, [u64], ()>, id: u64) -> Result<SampleMut<S, [u64], ()>, LoanError> {
+        p.loan_slice_uninit(slice_len(id)).map(|l| l.write_from_fn(|i| slice_elem(id, i)))
+    }
+    fn receive<S: Service>(s: &Subscriber<S, [u64], ()>) -> Result<Option<Sample<S, [u64], ()>>, ReceiveError> {
+        s.receive()
+    }
+    fn has_samples<S: Service>(s: &Subscriber<S, [u64], ()>) -> Result<bool, iceoryx2::port::update_connections::ConnectionFailure> {
+        s.has_samples()
+    }
+    fn update<S: Service>(p: &Publisher<S, [u64], ()>) -> Result<(), iceoryx2::port::update_connections::ConnectionFailure> {
+        p.update_connections()
+    }
+    fn sp<S: Service>(s: &Sample<S, [u64], ()>) -> &[u64] {
+        s.payload()
+    }
+    fn lp<S: Service>(l: &SampleMut<S, [u64], ()>) -> &[u64] {
+        l.payload()
+    }
+    fn check(p: &[u64]) -> Option<u64> {
+        check_slice(p)
+    }
+}
 
 #[derive(Debug, Clone, Copy)]
 pub struct Cfg {
@@ -91,13 +228,13 @@ struct SubM {
     borrows: BTreeMap<u64, usize>,
 }
 
-struct Held<S: Service> {
+struct Held<S: Service, K: Kind> {
     sub_slot: usize,
     sub_uid: u64,
     pub_uid: u64,
     id: u64,
     orphan: bool,
-    sample: Sample<S, P, ()>,
+    sample: Sample<S, K::T, ()>,
 }
 
 pub struct Outcome {
@@ -109,16 +246,16 @@ pub struct Outcome {
     pub shape: u64,
 }
 
-struct World<S: Service> {
+struct World<S: Service, K: Kind> {
     cfg: Cfg,
-    pubs: Vec<Option<(Publisher<S, P, ()>, PubM, Vec<(u64, SampleMut<S, P, ()>)>)>>,
-    subs: Vec<Option<(Subscriber<S, P, ()>, SubM)>>,
-    held: Vec<Held<S>>,
+    pubs: Vec<Option<(Publisher<S, K::T, ()>, PubM, Vec<(u64, SampleMut<S, K::T, ()>)>)>>,
+    subs: Vec<Option<(Subscriber<S, K::T, ()>, SubM)>>,
+    held: Vec<Held<S, K>>,
     next_uid: u64,
     trace: Vec<String>,
 }
 
-impl<S: Service> World<S> {
+impl<S: Service, K: Kind> World<S, K> {
     fn pub_update(&mut self, pi: usize) {
         let live: Vec<(u64, usize, usize)> = self.subs.iter().flatten().map(|(_, m)| (m.uid, m.buf, m.hist_req)).collect();
         let (_, pm, _) = self.pubs[pi].as_mut().unwrap();
@@ -188,6 +325,11 @@ impl<S: Service> World<S> {
 }
 
 pub fn run_history<S: Service>(config: &iceoryx2::config::Config, rng: &mut Rng, cfg: Cfg, opts: Opts, tag: &str) -> Outcome {
+    // every third history uses slice payloads
+    if rng.chance(1, 3) { run_history_kind::<S, Slices>(config, rng, cfg, opts, tag) } else { run_history_kind::<S, Fixed>(config, rng, cfg, opts, tag) }
+}
+
+pub fn run_history_kind<S: Service, K: Kind>(config: &iceoryx2::config::Config, rng: &mut Rng, cfg: Cfg, opts: Opts, tag: &str) -> Outcome {
     let mut events: BTreeMap<&'static str, u64> = BTreeMap::new();
     let mut out = Outcome { steps: 0, events: BTreeMap::new(), mismatch: None, trace_sample: Vec::new(), shape: 0 };
     macro_rules! ev {
@@ -203,24 +345,15 @@ pub fn run_history<S: Service>(config: &iceoryx2::config::Config, rng: &mut Rng,
         }
     };
     let name = format!("ps_{}_{}", tag, rng.next());
-    let svc = match node
-        .service_builder(&name.as_str().try_into().unwrap())
-        .publish_subscribe::<P>()
-        .subscriber_max_buffer_size(cfg.buf_max)
-        .history_size(cfg.hist)
-        .subscriber_max_borrowed_samples(cfg.borrow)
-        .enable_safe_overflow(cfg.overflow)
-        .max_publishers(cfg.max_pubs)
-        .max_subscribers(cfg.max_subs)
-        .create()
-    {
+    *events.entry(if K::NAME == "slice" { "histories_with_slice_payload" } else { "histories_with_fixed_payload" }).or_default() += 1;
+    let svc = match K::service(&node, &name.as_str().try_into().unwrap(), &cfg) {
         Ok(s) => s,
         Err(e) => {
-            out.mismatch = Some(("service_create_failed".into(), format!("cfg {:?}: {:?}", cfg, e)));
+            out.mismatch = Some(("service_create_failed".into(), format!("cfg {:?}: {}", cfg, e)));
             return out;
         }
     };
-    let mut w: World<S> = World { cfg, pubs: (0..cfg.max_pubs).map(|_| None).collect(), subs: (0..cfg.max_subs).map(|_| None).collect(), held: Vec::new(), next_uid: 1, trace: Vec::new() };
+    let mut w: World<S, K> = World { cfg, pubs: (0..cfg.max_pubs).map(|_| None).collect(), subs: (0..cfg.max_subs).map(|_| None).collect(), held: Vec::new(), next_uid: 1, trace: Vec::new() };
     macro_rules! fail {
         ($rule:expr, $($a:tt)*) => {{
             let t0 = w.trace.len().saturating_sub(30);
@@ -252,9 +385,7 @@ pub fn run_history<S: Service>(config: &iceoryx2::config::Config, rng: &mut Rng,
                 // create publisher
                 let i = rng.below(cfg.max_pubs as u64) as usize;
                 if w.pubs[i].is_none() {
-                    let pb = svc.publisher_builder().backpressure_strategy(BackpressureStrategy::DiscardData).max_loaned_samples(cfg.loans);
-                    let pb = if cfg.fail_on_full { pb.set_backpressure_handler(|_| iceoryx2::port::BackpressureAction::DiscardDataAndFail) } else { pb };
-                    match pb.create() {
+                    match K::publisher(&svc, Some(cfg.loans), cfg.fail_on_full) {
                         Ok(p) => {
                             let uid = w.next_uid;
                             w.next_uid += 1;
@@ -267,7 +398,7 @@ pub fn run_history<S: Service>(config: &iceoryx2::config::Config, rng: &mut Rng,
                     }
                 } else if w.pubs.iter().all(|p| p.is_some()) {
                     // one beyond the limit
-                    match svc.publisher_builder().create() {
+                    match K::publisher(&svc, None, false) {
                         Err(iceoryx2::port::publisher::PublisherCreateError::ExceedsMaxSupportedPublishers) => ev!("limit_publishers_enforced"),
                         Ok(_) => fail!("limit_not_enforced", "publisher beyond max_publishers={} was created", cfg.max_pubs),
                         Err(e) => fail!("limit_wrong_error", "publisher beyond the limit refused with {:?}", e),
@@ -298,7 +429,7 @@ pub fn run_history<S: Service>(config: &iceoryx2::config::Config, rng: &mut Rng,
                 if w.subs[j].is_none() {
                     let buf = rng.range(1, cfg.buf_max as u64) as usize;
                     let hreq = rng.below((cfg.hist.min(buf) + 1) as u64) as usize;
-                    match svc.subscriber_builder().buffer_size(buf).history_request(hreq).create() {
+                    match K::subscriber(&svc, Some((buf, hreq))) {
                         Ok(s) => {
                             let uid = w.next_uid;
                             w.next_uid += 1;
@@ -313,7 +444,7 @@ pub fn run_history<S: Service>(config: &iceoryx2::config::Config, rng: &mut Rng,
                         Err(e) => fail!("port_create_inside_limit", "subscriber {} of max {} refused: {:?}", w.subs.iter().flatten().count() + 1, cfg.max_subs, e),
                     }
                 } else if w.subs.iter().all(|p| p.is_some()) {
-                    match svc.subscriber_builder().create() {
+                    match K::subscriber(&svc, None) {
                         Err(iceoryx2::port::subscriber::SubscriberCreateError::ExceedsMaxSupportedSubscribers) => ev!("limit_subscribers_enforced"),
                         Ok(_) => fail!("limit_not_enforced", "subscriber beyond max_subscribers={} was created", cfg.max_subs),
                         Err(e) => fail!("limit_wrong_error", "subscriber beyond the limit refused with {:?}", e),
@@ -351,7 +482,7 @@ pub fn run_history<S: Service>(config: &iceoryx2::config::Config, rng: &mut Rng,
                 let outstanding = w.pubs[i].as_ref().unwrap().2.len();
                 if op == 4 && outstanding == cfg.loans {
                     // send_copy needs a loan of its own: must be refused without side effects
-                    let r = w.pubs[i].as_ref().unwrap().0.send_copy(payload(0));
+                    let r = K::send_copy(&w.pubs[i].as_ref().unwrap().0, 0);
                     match r {
                         Err(SendError::LoanError(LoanError::ExceedsMaxLoans)) => {
                             w.trace.push(format!("Send{i}->ExceedsMaxLoans"));
@@ -370,12 +501,12 @@ pub fn run_history<S: Service>(config: &iceoryx2::config::Config, rng: &mut Rng,
                         pm.seq += 1;
                         (pm.uid << 32) | pm.seq
                     };
-                    (id, w.pubs[i].as_ref().unwrap().0.send_copy(payload(id)))
+                    (id, K::send_copy(&w.pubs[i].as_ref().unwrap().0, id))
                 } else {
                     let k = rng.below(outstanding as u64) as usize;
                     let (id, sm) = w.pubs[i].as_mut().unwrap().2.remove(k);
-                    if check_payload(sm.payload()) != Some(id) {
-                        fail!("loan_changed", "unsent loan #{:x} changed before send: {:?}", id, sm.payload());
+                    if K::check(K::lp(&sm)) != Some(id) {
+                        fail!("loan_changed", "unsent loan #{:x} changed before send: {:?}", id, K::lp(&sm));
                     }
                     (id, sm.send())
                 };
@@ -416,16 +547,15 @@ pub fn run_history<S: Service>(config: &iceoryx2::config::Config, rng: &mut Rng,
                     continue;
                 }
                 let outstanding = w.pubs[i].as_ref().unwrap().2.len();
-                let r = w.pubs[i].as_ref().unwrap().0.loan_uninit();
+                let id = {
+                    let pm = &w.pubs[i].as_ref().unwrap().1;
+                    (pm.uid << 32) | (pm.seq + 1)
+                };
+                let r = K::loan(&w.pubs[i].as_ref().unwrap().0, id);
                 if outstanding < cfg.loans {
                     match r {
                         Ok(l) => {
-                            let id = {
-                                let pm = &mut w.pubs[i].as_mut().unwrap().1;
-                                pm.seq += 1;
-                                (pm.uid << 32) | pm.seq
-                            };
-                            let l = l.write_payload(payload(id));
+                            w.pubs[i].as_mut().unwrap().1.seq += 1;
                             w.pubs[i].as_mut().unwrap().2.push((id, l));
                             w.trace.push(format!("Loan{i}(#{:x})", id & 0xffff_ffff));
                             ev!("loan");
@@ -450,8 +580,8 @@ pub fn run_history<S: Service>(config: &iceoryx2::config::Config, rng: &mut Rng,
                     if !loans.is_empty() {
                         let k = rng.below(loans.len() as u64) as usize;
                         let (id, l) = loans.remove(k);
-                        if check_payload(l.payload()) != Some(id) {
-                            fail!("loan_changed", "unsent loan #{:x} changed: {:?}", id, l.payload());
+                        if K::check(K::lp(&l)) != Some(id) {
+                            fail!("loan_changed", "unsent loan #{:x} changed: {:?}", id, K::lp(&l));
                         }
                         drop(l);
                         w.trace.push(format!("DropLoan{i}(#{:x})", id & 0xffff_ffff));
@@ -465,15 +595,15 @@ pub fn run_history<S: Service>(config: &iceoryx2::config::Config, rng: &mut Rng,
                     continue;
                 }
                 w.sub_update(j);
-                let r = w.subs[j].as_ref().unwrap().0.receive();
+                let r = K::receive(&w.subs[j].as_ref().unwrap().0);
                 let sm = &mut w.subs[j].as_mut().unwrap().1;
                 let with_data: Vec<u64> = sm.queues.iter().filter(|(_, q)| !q.is_empty()).map(|(p, _)| *p).collect();
                 let receivable: Vec<u64> = with_data.iter().filter(|p| *sm.borrows.get(p).unwrap_or(&0) < cfg.borrow).cloned().collect();
                 match r {
                     Ok(Some(sample)) => {
-                        let id = match check_payload(sample.payload()) {
+                        let id = match K::check(K::sp(&sample)) {
                             Some(v) => v,
-                            None => fail!("payload_corrupted", "received payload is not byte-identical to any sent one: {:?}", sample.payload()),
+                            None => fail!("payload_corrupted", "received payload is not byte-identical to any sent one: {:?}", K::sp(&sample)),
                         };
                         let puid = id >> 32;
                         w.trace.push(format!("Recv{j}->#{:x}", id & 0xffff_ffff));
@@ -513,8 +643,8 @@ pub fn run_history<S: Service>(config: &iceoryx2::config::Config, rng: &mut Rng,
                 if !w.held.is_empty() {
                     let k = rng.below(w.held.len() as u64) as usize;
                     let h = w.held.remove(k);
-                    if check_payload(h.sample.payload()) != Some(h.id) {
-                        fail!(if h.orphan { "sample_outliving_subscriber_changed" } else { "held_sample_changed" }, "held sample #{:x} changed: {:?}", h.id, h.sample.payload());
+                    if K::check(K::sp(&h.sample)) != Some(h.id) {
+                        fail!(if h.orphan { "sample_outliving_subscriber_changed" } else { "held_sample_changed" }, "held sample #{:x} changed: {:?}", h.id, K::sp(&h.sample));
                     }
                     drop(h.sample);
                     w.trace.push(format!("Release(u{} #{:x})", h.sub_uid, h.id & 0xffff_ffff));
@@ -531,7 +661,7 @@ pub fn run_history<S: Service>(config: &iceoryx2::config::Config, rng: &mut Rng,
             10 => {
                 let i = rng.below(cfg.max_pubs as u64) as usize;
                 if w.pubs[i].is_some() {
-                    if let Err(e) = w.pubs[i].as_ref().unwrap().0.update_connections() {
+                    if let Err(e) = K::update(&w.pubs[i].as_ref().unwrap().0) {
                         fail!("update_connections_failed", "{:?}", e);
                     }
                     w.trace.push(format!("Update{i}"));
@@ -543,7 +673,7 @@ pub fn run_history<S: Service>(config: &iceoryx2::config::Config, rng: &mut Rng,
                 let j = rng.below(cfg.max_subs as u64) as usize;
                 if w.subs[j].is_some() {
                     w.sub_update(j);
-                    let r = w.subs[j].as_ref().unwrap().0.has_samples();
+                    let r = K::has_samples(&w.subs[j].as_ref().unwrap().0);
                     let sm = &w.subs[j].as_ref().unwrap().1;
                     let model = sm.queues.values().any(|q| !q.is_empty());
                     match r {
@@ -561,14 +691,14 @@ pub fn run_history<S: Service>(config: &iceoryx2::config::Config, rng: &mut Rng,
         }
         // canaries: every held sample and every unsent loan is unchanged after every step
         for h in &w.held {
-            if check_payload(h.sample.payload()) != Some(h.id) {
-                fail!(if h.orphan { "sample_outliving_subscriber_changed" } else { "held_sample_changed" }, "held sample #{:x} changed after the step: {:?}", h.id, h.sample.payload());
+            if K::check(K::sp(&h.sample)) != Some(h.id) {
+                fail!(if h.orphan { "sample_outliving_subscriber_changed" } else { "held_sample_changed" }, "held sample #{:x} changed after the step: {:?}", h.id, K::sp(&h.sample));
             }
         }
         for (_, _, loans) in w.pubs.iter().flatten() {
             for (id, l) in loans {
-                if check_payload(l.payload()) != Some(*id) {
-                    fail!("loan_changed", "unsent loan #{:x} changed after the step: {:?}", id, l.payload());
+                if K::check(K::lp(l)) != Some(*id) {
+                    fail!("loan_changed", "unsent loan #{:x} changed after the step: {:?}", id, K::lp(l));
                 }
             }
         }
@@ -586,7 +716,7 @@ pub fn run_history<S: Service>(config: &iceoryx2::config::Config, rng: &mut Rng,
         w.held.retain(|h| h.orphan);
         let live_subs: Vec<usize> = (0..cfg.max_subs).filter(|j| w.subs[*j].is_some()).collect();
         for round in 0..2 {
-            let mut borrowed: Vec<Sample<S, P, ()>> = Vec::new();
+            let mut borrowed: Vec<Sample<S, K::T, ()>> = Vec::new();
             for i in 0..cfg.max_pubs {
                 if w.pubs[i].is_none() {
                     continue;
@@ -595,7 +725,7 @@ pub fn run_history<S: Service>(config: &iceoryx2::config::Config, rng: &mut Rng,
                 for fill in 0..2 {
                     for n in 0..(cfg.buf_max + cfg.hist + 1) {
                         let id = (0xFFFF << 32) | ((round * 1000 + fill * 100 + n) as u64);
-                        match w.pubs[i].as_ref().unwrap().0.send_copy(payload(id)) {
+                        match K::send_copy(&w.pubs[i].as_ref().unwrap().0, id) {
                             Ok(_) => {}
                             Err(SendError::UnableToDeliver) if cfg.fail_on_full => {}
                             Err(e) => fail!("saturation_send_failed", "worst-case fill: send {} failed with {:?}", n, e),
@@ -604,9 +734,9 @@ pub fn run_history<S: Service>(config: &iceoryx2::config::Config, rng: &mut Rng,
                     if fill == 0 {
                         for j in &live_subs {
                             loop {
-                                match w.subs[*j].as_ref().unwrap().0.receive() {
+                                match K::receive(&w.subs[*j].as_ref().unwrap().0) {
                                     Ok(Some(s)) => {
-                                        if check_payload(s.payload()).is_none() {
+                                        if K::check(K::sp(&s)).is_none() {
                                             fail!("payload_corrupted", "saturation probe received a corrupted payload");
                                         }
                                         borrowed.push(s)
@@ -621,18 +751,18 @@ pub fn run_history<S: Service>(config: &iceoryx2::config::Config, rng: &mut Rng,
                 }
                 let mut loans = Vec::new();
                 for n in 0..cfg.loans {
-                    match w.pubs[i].as_ref().unwrap().0.loan_uninit() {
-                        Ok(l) => loans.push(l.write_payload(payload(7))),
+                    match K::loan(&w.pubs[i].as_ref().unwrap().0, 7) {
+                        Ok(l) => loans.push(l),
                         Err(e) => fail!("saturation_loan_failed", "worst case (all buffers full, {} samples borrowed, history full): loan {} of {} failed with {:?}", borrowed.len(), n + 1, cfg.loans, e),
                     }
                 }
-                match w.pubs[i].as_ref().unwrap().0.loan_uninit() {
+                match K::loan(&w.pubs[i].as_ref().unwrap().0, 7) {
                     Err(LoanError::ExceedsMaxLoans) => {}
                     Ok(_) => fail!("limit_not_enforced", "saturation probe: loan beyond the limit succeeded"),
                     Err(e) => fail!("limit_wrong_error", "saturation probe: loan beyond the limit failed with {:?}", e),
                 }
                 for s in &borrowed {
-                    if check_payload(s.payload()).is_none() {
+                    if K::check(K::sp(s)).is_none() {
                         fail!("held_sample_changed", "saturation probe: a borrowed sample changed while the publisher was driven to its limits");
                     }
                 }
@@ -642,7 +772,7 @@ pub fn run_history<S: Service>(config: &iceoryx2::config::Config, rng: &mut Rng,
             drop(borrowed);
         }
         for h in &w.held {
-            if check_payload(h.sample.payload()) != Some(h.id) {
+            if K::check(K::sp(&h.sample)) != Some(h.id) {
                 fail!("sample_outliving_subscriber_changed", "sample #{:x} kept past its subscriber changed during the saturation probe", h.id);
             }
         }
